@@ -11,7 +11,7 @@
 From RG Require Import Base.Bytes Base.BytesFacts Model.Lines Model.SearcherCore Model.Glue
   Spec.GrepSpec Spec.MultiLineSpec
   Proofs.LinesProofs Proofs.CoreSinkProofs Proofs.SlowPathProofs Proofs.PrefixLaw Proofs.PrefixCore
-  Proofs.FuelProofs Proofs.MLPrefix Proofs.MLGroup Proofs.MLGeometry.
+  Proofs.MLInvExt Proofs.FuelProofs Proofs.MLPrefix Proofs.MLGroup Proofs.MLGeometry.
 
 (* ------------------------------------------------------------------ adapter to SlowPathProofs *)
 Section Adapter.
@@ -927,7 +927,7 @@ Section NonInverted.
   Theorem noninv_eq_ref : multi_line_run cfg0 M K s = RunOk (ml_ref cfg0 fa s).
   Proof.
     rewrite noninv_blocks. f_equal.
-    unfold ml_ref. rewrite Hni. f_equal. f_equal.
+    unfold ml_ref, ml_flags. rewrite Hni. f_equal. f_equal.
     set (ms := ml_matches fa (S (length s)) s 0).
     destruct (flags_merged ltb s ms 0 (matches_chain fa Hfa s _ 0)) as [Hflags Hsep].
     set (blocks := imerge None (map ivf ms)) in *.
@@ -941,11 +941,28 @@ Section NonInverted.
 End NonInverted.
 
 (* ------------------------------------------------------------------ the inverted loop *)
+(* searching from a later position, up to the start of the match found, finds the same match:
+   true of every leftmost search over a fixed haystack (the candidates from p' are among those
+   from p) *)
+Definition find_at_mono (M : matcher) : Prop :=
+  forall s p p', p <= p' ->
+    match m_find_at M s p with
+    | Some (a, b) => p' <= a -> m_find_at M s p' = Some (a, b)
+    | None => m_find_at M s p' = None
+    end.
+
+Lemma isorted_lower L ivs : forall pi pj, isorted L pi pj ivs -> Forall (fun b : nat * nat => pi <= fst b) ivs.
+Proof.
+  induction ivs as [|[i j] r IH]; intros pi pj H; [constructor|]. destruct H as (H1 & H2 & H3 & H4 & H5).
+  constructor; [exact H1|]. eapply Forall_impl; [|apply (IH i j H5)]. intros b Hb. cbn beta in *. lia.
+Qed.
+
 Section Inverted.
   Variable cfg0 : config.
   Variable M : matcher.
   Hypothesis Hbin : c_binary cfg0 = BNone.
   Hypothesis Hfa : find_at_ok M.
+  Hypothesis Hmono : find_at_mono M.
   Hypothesis Hiv : c_invert cfg0 = true.
   Hypothesis Hpta : c_passthru cfg0 = true -> c_after cfg0 = 0.
   Variable s : bytes.
@@ -962,7 +979,6 @@ Section Inverted.
   Notation fa := (m_find_at M).
   Notation Inv := (Inv cfgn s).
   Notation ivf := (iv (lt_byte (c_lt cfg0)) s).
-  Notation spans_from := (spans_from (lt_byte (c_lt cfg0)) s).
 
   (* the per-line reference over a list of flags *)
   Definition lfoldl (flags : list bool) (ls : list bytes) (g : gstate) : gstate :=
@@ -1002,45 +1018,136 @@ Section Inverted.
   Lemma flush_none c : mlc_flush cfg0 s None K c = ctx_to cfg0 s c (length s).
   Proof. reflexivity. Qed.
 
-  Lemma invsink_none c : fa s (pos c) = None ->
-    mlc_sink cfg0 M s None K c =
-      (if Nat.leb (length s) (pos c) then OK true (set_pos c (length s))
-       else andthen (ml_sink_context cfg0 K (set_pos c (length s)) s (pos c))
-              (fun c' => mlc_inv_loop cfg0 s K (S (length s)) c' (pos c) (length s))) /\
-    next_last cfg0 M s c None = None.
-  Proof. intro E. unfold mlc_sink, next_last, mlc_inverted, ml_find. rewrite Hiv, E. auto. Qed.
-
-  Lemma invsink_some c a b : fa s (pos c) = Some (a, b) -> a <= b -> b <= length s ->
-    let i := fst (ivf (a, b)) in let j := snd (ivf (a, b)) in
-    let c1 := ml_advance c s (off i) (off j) in
-    mlc_sink cfg0 M s None K c =
-      (if Nat.leb (off i) (pos c) then OK true c1
-       else andthen (ml_sink_context cfg0 K c1 s (pos c))
-              (fun c' => mlc_inv_loop cfg0 s K (S (length s)) c' (pos c) (off i))) /\
-    next_last cfg0 M s c None = None.
-  Proof.
-    intros E Hab Hb. cbn zeta. unfold mlc_sink, next_last, mlc_inverted, ml_find. rewrite Hiv, E.
-    rewrite (locate_iv ltb s a b Hab Hb). auto.
-  Qed.
-
-  Lemma pos_advance_range c i j : i <= j -> j <= n -> (i < j \/ i = n) ->
-    pos (ml_advance c s (off i) (off j)) = off j.
-  Proof.
-    intros H1 H2 H3. unfold ml_advance. cbn [pos set_pos].
-    destruct (Nat.leb_spec (off j) (off i)) as [Hle|Hgt]; cbn [andb]; [|reflexivity].
-    assert (j = n).
-    { destruct H3 as [H3| ->]; [|lia]. pose proof (off_strict ltb s i j H3 H2). lia. }
-    subst j. rewrite (off_n ltb s n) by lia. destruct (Nat.ltb_spec (length s) (length s)); [lia|reflexivity].
-  Qed.
-
   Lemma repeat_app' {A} (x : A) a b : repeat x a ++ repeat x b = repeat x (a + b).
   Proof. induction a as [|a IH]; [reflexivity|]. cbn [repeat app Nat.add]. now rewrite IH. Qed.
+
+  (* ---- the successive matches seen from a later position ---- *)
+  Lemma ml_matches_shift f1 f2 q q' : q <= q' -> q' < length s ->
+    length s - q < f1 -> length s - q' < f2 ->
+    match fa s q with Some (a, b) => q' <= a | None => True end ->
+    ml_matches fa f1 s q = ml_matches fa f2 s q'.
+  Proof.
+    intros Hq Hq' H1 H2 Hm. pose proof (Hmono s q q' Hq) as Hmo.
+    destruct f1 as [|f1]; [lia|]. destruct f2 as [|f2]; [lia|].
+    destruct (fa s q) as [[a b]|] eqn:E.
+    - specialize (Hmo Hm). destruct (Hfa s q a b E) as (A1 & A2 & A3).
+      rewrite (ml_matches_some M s f1 q a b ltac:(lia) E), (ml_matches_some M s f2 q' a b Hq' Hmo). f_equal.
+      destruct (next_pos_bounds s q' a b Hm A2 A3 Hq') as (B1 & B2 & [B3|B3]).
+      + apply (ml_matches_fuel M Hfa s); lia.
+      + rewrite !ml_matches_end by exact B3. reflexivity.
+    - rewrite (ml_matches_none M s f1 q E), (ml_matches_none M s f2 q' Hmo). reflexivity.
+  Qed.
+
+  Lemma adv_le_locate a b : a <= b -> b <= length s -> adv_pos s a b <= off (snd (ivf (a, b))).
+  Proof.
+    intros Hab Hb. pose proof (locate_iv ltb s a b Hab Hb) as Hl.
+    pose proof (locate_end_ge ltb s a b Hb) as H1. rewrite Hl in H1. cbn [snd] in H1.
+    unfold adv_pos. destruct (Nat.leb_spec b a) as [Hba|Hba]; destruct (Nat.ltb_spec b (length s)) as [Hbl|Hbl]; cbn [andb]; try lia.
+    assert (a = b) by lia. subst a.
+    pose proof (locate_progress ltb s b b b Hbl (le_n _) (le_n _) Hb) as H2. rewrite Hl in H2. cbn [snd] in H2. lia.
+  Qed.
+
+  Definition G (R : list (nat * nat)) (t : nat) : bool := negb (flagf (map ivf R) t).
+
+  (* the inner loop: starting at q with the lines up to j excluded, it ends with the lines up to
+     some j' excluded; those lines are overlapped by the matches found from q, and the matches
+     seen from the start of line j' are the remaining ones *)
+  Lemma ext_spec : forall f q j, j <= n -> q <= off j -> length s - q < f ->
+    exists q' j', ml_ext_pos cfg0 M s f q (off j) = Some (q', off j') /\ j <= j' /\ j' <= n /\
+      (forall t, j <= t < j' -> flagf (map ivf (ml_matches fa f s q)) t = true) /\
+      (forall f2 t, length s - off j' < f2 -> j' <= t < n ->
+         flagf (map ivf (ml_matches fa f s q)) t = flagf (map ivf (ml_matches fa f2 s (off j'))) t).
+  Proof.
+    induction f as [|f IH]; intros q j Hj Hq Hf; [lia|].
+    pose proof (off_le_len ltb s j) as Hoj.
+    assert (Hstop : forall (Hsame : forall f2, length s - off j < f2 -> j < n ->
+                       ml_matches fa (S f) s q = ml_matches fa f2 s (off j)),
+              exists q' j', Some (q, off j) = Some (q', off j') /\ j <= j' /\ j' <= n /\
+                (forall t, j <= t < j' -> flagf (map ivf (ml_matches fa (S f) s q)) t = true) /\
+                (forall f2 t, length s - off j' < f2 -> j' <= t < n ->
+                   flagf (map ivf (ml_matches fa (S f) s q)) t = flagf (map ivf (ml_matches fa f2 s (off j'))) t)).
+    { intro Hsame. exists q, j. split; [reflexivity|]. split; [lia|]. split; [exact Hj|]. split; [intros t Ht; lia|].
+      intros f2 t Hf2 Ht. rewrite (Hsame f2 Hf2 ltac:(lia)). reflexivity. }
+    cbn [ml_ext_pos]. destruct (Nat.ltb_spec q (off j)) as [Hlt|Hge].
+    - destruct (fa s q) as [[a b]|] eqn:E.
+      + destruct (Hfa s q a b E) as (A1 & A2 & A3).
+        destruct (Nat.ltb_spec a (off j)) as [Ha|Ha].
+        * (* the match starts inside the excluded lines: they grow *)
+          rewrite (locate_iv ltb s a b A2 A3).
+          pose proof (iv_bounds ltb s a b A2) as [V1 V2].
+          pose proof (adv_le_locate a b A2 A3) as Hadv.
+          assert (Hij : fst (ivf (a, b)) < j).
+          { unfold iv. cbn [fst]. destruct (Nat.le_gt_cases j (count_lt ltb s)) as [Hc|Hc].
+            - apply (lidx_lt_off ltb s j a Hc Ha).
+            - pose proof (lidx_le_cnt ltb s a). lia. }
+          destruct (ivf (a, b)) as [i' j'] eqn:Eiv. cbn [fst snd] in *.
+          set (jm := Nat.max j j').
+          assert (Hle : (if Nat.ltb (off j) (off j') then off j' else off j) = off jm).
+          { unfold jm. destruct (Nat.ltb_spec (off j) (off j')) as [H|H].
+            - destruct (Nat.le_gt_cases j' j) as [H'|H']; [pose proof (off_mono ltb s j' j H'); lia|f_equal; lia].
+            - destruct (Nat.le_gt_cases j' j) as [H'|H']; [f_equal; lia|pose proof (off_strict ltb s j j' H' V2); lia]. }
+          rewrite Hle.
+          assert (Hprog : q < adv_pos s a b \/ length s <= adv_pos s a b).
+          { unfold adv_pos. destruct (Nat.leb_spec b a); destruct (Nat.ltb_spec b (length s)); cbn [andb]; lia. }
+          destruct (IH (adv_pos s a b) jm) as (q' & j2 & E2 & I1 & I2 & I3 & I4).
+          { unfold jm. lia. }
+          { unfold jm. pose proof (off_mono ltb s j' (Nat.max j j') ltac:(lia)). lia. }
+          { lia. }
+          exists q', j2. split; [exact E2|]. split; [unfold jm in I1; lia|]. split; [exact I2|].
+          rewrite (ml_matches_some M s f q a b ltac:(lia) E). cbn [map]. rewrite Eiv.
+          change (next_pos s a b) with (adv_pos s a b).
+          split.
+          -- intros t Ht. unfold flagf. cbn [existsb]. fold (flagf (map ivf (ml_matches fa f s (adv_pos s a b))) t).
+             destruct (Nat.lt_ge_cases t j') as [Htj|Htj].
+             ++ unfold in_iv. cbn [fst snd]. destruct (Nat.leb_spec i' t); [|lia]. destruct (Nat.ltb_spec t j'); [reflexivity|lia].
+             ++ rewrite (I3 t) by (unfold jm; lia). apply orb_true_r.
+          -- intros f2 t Hf2 Ht. unfold flagf at 1. cbn [existsb]. fold (flagf (map ivf (ml_matches fa f s (adv_pos s a b))) t).
+             rewrite (I4 f2 t Hf2 Ht). unfold in_iv. cbn [fst snd]. unfold jm in I1.
+             destruct (Nat.ltb_spec t j'); [lia|]. now rewrite andb_false_r.
+        * (* the next match starts after the excluded lines *)
+          apply Hstop. intros f2 Hf2 Hjn.
+          pose proof (off_strict ltb s j n Hjn (le_n _)) as Hs. rewrite (off_n ltb s n) in Hs by lia.
+          apply ml_matches_shift; try lia. rewrite E. exact Ha.
+      + apply Hstop. intros f2 Hf2 Hjn.
+        pose proof (off_strict ltb s j n Hjn (le_n _)) as Hs. rewrite (off_n ltb s n) in Hs by lia.
+        apply ml_matches_shift; try lia. now rewrite E.
+    - assert (q = off j) by lia. subst q.
+      apply Hstop. intros f2 Hf2 Hjn. apply (ml_matches_fuel M Hfa s); lia.
+  Qed.
+
+  (* ---- one MultiLine::sink call, inverted ---- *)
+  Lemma invsink c : mlc_sink cfg0 M s None K c =
+    match found_pos cfg0 M s c with
+    | None => FUEL
+    | Some (rs, re, q) =>
+      if Nat.leb re rs then OK true (set_pos c q) else
+      andthen (ml_sink_context cfg0 K (set_pos c q) s rs) (fun c' => mlc_inv_loop cfg0 s K (S (length s)) c' rs re)
+    end /\ next_last cfg0 M s c None = None.
+  Proof.
+    unfold mlc_sink, next_last, mlc_inverted. rewrite Hiv, mlc_found_eq.
+    destruct (found_pos cfg0 M s c) as [[[rs re] q]|]; auto.
+  Qed.
+
+  Lemma flags_split R i j' kp : kp <= i -> i <= j' -> j' <= n ->
+    (forall t, kp <= t < i -> G R t = true) -> (forall t, i <= t < j' -> G R t = false) ->
+    map (G R) (seq kp (n - kp)) = repeat true (i - kp) ++ repeat false (j' - i) ++ map (G R) (seq j' (n - j')).
+  Proof.
+    intros H1 H2 H3 Ht Hf.
+    replace (n - kp) with ((i - kp) + ((j' - i) + (n - j'))) by lia.
+    rewrite !seq_app, !map_app. replace (kp + (i - kp)) with i by lia. replace (i + (j' - i)) with j' by lia.
+    f_equal; [|f_equal].
+    - rewrite <- (seq_length (i - kp) kp) at 2. rewrite <- map_const. apply map_ext_in.
+      intros t Hin. apply in_seq in Hin. apply Ht. lia.
+    - rewrite <- (seq_length (j' - i) i) at 2. rewrite <- map_const. apply map_ext_in.
+      intros t Hin. apply in_seq in Hin. apply Hf. lia.
+  Qed.
 
   Lemma inv_loop : forall f1 f2 c g k kp,
     Inv c g k -> k <= kp -> kp <= n -> pos c = off kp ->
     (kp < n -> length s - off kp < f1 /\ length s - off kp < f2) -> 1 <= f1 ->
     exists b c', mlc_loop cfg0 M s f1 None K c = OK b c' /\ pos c' = length s /\ bin_off c' = None /\
-      log c' = g_out (lfoldl (repeat false (kp - k) ++ inv_flags fa f2 s (spans_from kp) (off kp)) (seg k n) g) ++ [EBegin].
+      log c' = g_out (lfoldl (repeat false (kp - k) ++ map (G (ml_matches fa f2 s (off kp))) (seq kp (n - kp)))
+                             (seg k n) g) ++ [EBegin].
   Proof.
     induction f1 as [|f1 IH]; intros f2 c g k kp HI Hkkp Hkpn Hpos Hfuel Hf1; [lia|].
     cbn [mlc_loop]. rewrite Hpos.
@@ -1052,52 +1159,84 @@ Section Inverted.
       subst kp. rewrite flush_none.
       destruct (tail_run1 c g k HI Hkkp) as (c1 & T1 & T2 & T3 & T4).
       rewrite T1. exists true, c1. split; [reflexivity|]. split; [rewrite T2, Hpos; apply off_n; lia|]. split; [exact T4|].
-      unfold MLGeometry.spans_from. rewrite Nat.sub_diag. cbn [seq map]. rewrite inv_flags_nil, app_nil_r.
+      rewrite Nat.sub_diag. cbn [seq map]. rewrite app_nil_r.
       rewrite <- (seg_length L k n) by lia. rewrite lfoldl_repeat. exact T3.
     - assert (Hkp : kp < n).
       { destruct (Nat.eq_dec kp n) as [->|E]; [rewrite (off_n ltb s n) in Hlt by lia; lia|lia]. }
       destruct (Hfuel Hkp) as [Hfa1 Hfa2].
       destruct f2 as [|f2]; [lia|].
-      assert (Hsplit3 : forall i, kp <= i -> i <= n -> seg k n = seg k kp ++ seg kp i ++ seg i n).
-      { intros i H1 H2. rewrite (seg_split L k kp n) by lia. f_equal. apply seg_split; lia. }
+      destruct (invsink c) as [Hsink Hnext]. rewrite Hsink, Hnext. clear Hsink Hnext.
+      unfold found_pos, ml_find. rewrite Hpos.
       destruct (fa s (off kp)) as [[a b]|] eqn:E.
       + destruct (Hfa s (off kp) a b E) as (A1 & A2 & A3).
-        destruct (inv_flags_some ltb fa s f2 kp a b Hkp E A1 A2 A3) as (V1 & V2 & V3 & V4 & Hflags).
-        cbn zeta in Hflags. rewrite Hflags. clear Hflags.
-        rewrite <- Hpos in E. destruct (invsink_some c a b E A2 A3) as [Hsink Hnext]. cbn zeta in Hsink.
-        rewrite Hsink, Hnext. clear Hsink Hnext. rewrite Hpos.
+        rewrite (locate_iv ltb s a b A2 A3).
+        pose proof (iv_bounds ltb s a b A2) as [V1 V2].
+        pose proof (adv_le_locate a b A2 A3) as Hadv.
+        pose proof (iv_empty_end ltb s a b A2 A3) as Hempty.
+        assert (Hki : kp <= fst (ivf (a, b))).
+        { unfold iv. cbn [fst]. apply (off_le_iff ltb s kp a); [apply lt_n_le_cnt; exact Hkp|exact A1]. }
+        assert (Hic : fst (ivf (a, b)) <= cnt) by (unfold iv; cbn [fst]; apply lidx_le_cnt).
+        rewrite (ml_matches_some M s f2 (off kp) a b Hlt E).
+        destruct (next_pos_bounds s (off kp) a b A1 A2 A3 Hlt) as (B1 & _ & _).
+        pose proof (mchain_isorted ltb s (ml_matches fa f2 s (next_pos s a b)) a b A2
+                      (mchain_weaken s _ _ _ B1 (matches_chain fa Hfa s f2 (next_pos s a b)))) as Hsorted.
+        change (next_pos s a b) with (adv_pos s a b) in *.
         destruct (ivf (a, b)) as [i j] eqn:Eiv. cbn [fst snd] in *.
-        set (c1 := ml_advance c s (off i) (off j)) in *.
-        assert (HI1 : Inv c1 g k).
-        { unfold c1, ml_advance. destruct (_ && _); repeat apply Inv_set_pos; exact HI. }
-        assert (Hp1 : pos c1 = off j) by (apply pos_advance_range; assumption).
-        assert (Hfj : j < n -> length s - off j < f1 /\ length s - off j < f2).
-        { intro Hj. assert (kp < j) by lia. pose proof (off_strict ltb s kp j ltac:(lia) V3). lia. }
+        destruct (ext_spec (S (length s)) (adv_pos s a b) j V2 Hadv ltac:(lia)) as (q' & j' & Eext & X1 & X2 & X3 & X4).
+        rewrite Eext.
+        assert (Hkj : kp < j').
+        { destruct (Nat.le_gt_cases j i) as [Hd|Hd]; [destruct (Hempty Hd) as (_ & _ & Ei & _); lia|lia]. }
+        pose proof (off_strict ltb s kp j' Hkj X2) as Hoff.
+        assert (Hprog : off kp < adv_pos s a b \/ length s <= adv_pos s a b).
+        { unfold adv_pos. destruct (Nat.leb_spec b a); destruct (Nat.ltb_spec b (length s)); cbn [andb]; lia. }
+        (* the matches from the advanced position, with either fuel *)
+        assert (HR : ml_matches fa (S (length s)) s (adv_pos s a b) = ml_matches fa f2 s (adv_pos s a b)).
+        { destruct Hprog as [Hp|Hp]; [apply (ml_matches_fuel M Hfa s); lia|].
+          rewrite !ml_matches_end by exact Hp. reflexivity. }
+        rewrite HR in X3, X4.
+        set (Rt := ml_matches fa f2 s (adv_pos s a b)) in *.
+        set (R := (a, b) :: Rt).
+        assert (HGR : forall t, G R t = negb (in_iv t (i, j) || flagf (map ivf Rt) t)).
+        { intro t. unfold G, R, flagf. cbn [map existsb]. now rewrite Eiv. }
+        assert (Hflags : map (G R) (seq kp (n - kp)) =
+                         repeat true (i - kp) ++ repeat false (j' - i) ++ map (G (ml_matches fa f2 s (off j'))) (seq j' (n - j'))).
+        { rewrite (flags_split R i j' kp Hki ltac:(lia) X2).
+          - do 2 f_equal. apply map_ext_in. intros t Ht. apply in_seq in Ht. rewrite HGR. unfold G.
+            rewrite (X4 f2 t ltac:(lia) ltac:(lia)). unfold in_iv. cbn [fst snd].
+            destruct (Nat.ltb_spec t j); [lia|]. now rewrite andb_false_r.
+          - intros t Ht. rewrite HGR. rewrite (flagf_lower (map ivf Rt) i t (isorted_lower L _ i j Hsorted)) by lia.
+            unfold in_iv. cbn [fst snd]. destruct (Nat.leb_spec i t); [lia|reflexivity].
+          - intros t Ht. rewrite HGR. destruct (Nat.lt_ge_cases t j) as [Htj|Htj].
+            + unfold in_iv. cbn [fst snd]. destruct (Nat.leb_spec i t); [|lia]. destruct (Nat.ltb_spec t j); [reflexivity|lia].
+            + rewrite (X3 t) by lia. now rewrite orb_true_r. }
+        fold R. rewrite Hflags. clear Hflags.
+        set (c1 := set_pos c (off j')).
+        assert (HI1 : Inv c1 g k) by (apply Inv_set_pos; exact HI).
+        assert (Hfj : j' < n -> length s - off j' < f1 /\ length s - off j' < f2) by (intros _; lia).
         assert (Hf1' : 1 <= f1) by lia.
+        assert (Hsplit3 : seg k n = seg k kp ++ seg kp i ++ seg i n).
+        { rewrite (seg_split L k kp n) by lia. f_equal. apply seg_split; lia. }
         rewrite (off_leb ltb s i kp) by lia.
         destruct (Nat.leb_spec i kp) as [Hik|Hik].
         * (* the match starts in the first line of the range: nothing to deliver *)
           assert (i = kp) by lia. subst i. cbn [andthen].
-          destruct (IH f2 c1 g k j HI1 ltac:(lia) V3 Hp1 Hfj Hf1') as (b0 & c' & R1 & R2 & R3 & R4).
+          destruct (IH f2 c1 g k j' HI1 ltac:(lia) X2 eq_refl Hfj Hf1') as (b0 & c' & R1 & R2 & R3 & R4).
           exists b0, c'. split; [exact R1|]. split; [exact R2|]. split; [exact R3|].
           rewrite Nat.sub_diag. cbn [repeat app]. rewrite app_assoc, repeat_app'.
-          replace (kp - k + (j - kp)) with (j - k) by lia. exact R4.
+          replace (kp - k + (j' - kp)) with (j' - k) by lia. exact R4.
         * destruct (inv_deliver0 c1 g k kp i HI1 Hkkp Hik ltac:(lia)) as (c2 & D1 & D2 & D3 & D4 & D5 & D6).
           rewrite D1. cbn [andthen].
-          assert (Hic : i <= cnt).
-          { unfold iv in Eiv. injection Eiv as <- _. apply lidx_le_cnt. }
-          destruct (IH f2 c2 _ i j (D6 Hic) V2 V3 ltac:(congruence) Hfj Hf1') as (b0 & c' & R1 & R2 & R3 & R4).
+          destruct (IH f2 c2 _ i j' (D6 Hic) ltac:(lia) X2 ltac:(rewrite D2; reflexivity) Hfj Hf1') as (b0 & c' & R1 & R2 & R3 & R4).
           exists b0, c'. split; [exact R1|]. split; [exact R2|]. split; [exact R3|].
-          rewrite (Hsplit3 i ltac:(lia) ltac:(lia)).
+          rewrite Hsplit3.
           rewrite lfoldl_app by (rewrite repeat_length, seg_length; lia).
           rewrite lfoldl_app by (rewrite repeat_length, seg_length; lia).
           rewrite <- (seg_length L k kp) at 1 by lia. rewrite lfoldl_repeat.
           rewrite <- (seg_length L kp i) at 1 by lia. rewrite lfoldl_repeat.
           exact R4.
       + (* no further match: the rest of the input is the range *)
-        rewrite (inv_flags_none ltb fa s f2 kp Hkp E).
-        rewrite <- Hpos in E. destruct (invsink_none c E) as [Hsink Hnext]. rewrite Hsink, Hnext. clear Hsink Hnext.
-        rewrite Hpos. destruct (Nat.leb_spec (length s) (off kp)); [lia|].
+        rewrite (ml_matches_none M s f2 (off kp) E).
+        destruct (Nat.leb_spec (length s) (off kp)); [lia|].
         assert (HI1 : Inv (set_pos c (length s)) g k) by (apply Inv_set_pos; exact HI).
         destruct (inv_deliver0 _ g k kp n HI1 Hkkp Hkp (le_n _)) as (c2 & D1 & D2 & D3 & D4 & D5 & D6).
         rewrite (off_n ltb s n) in D1 by lia. rewrite D1. cbn [andthen].
@@ -1105,7 +1244,9 @@ Section Inverted.
         rewrite Nat.leb_refl. rewrite flush_none.
         rewrite (off_n ltb s n) in D5 by lia. rewrite (tail_end1 c2 D5).
         exists true, c2. split; [reflexivity|]. split; [rewrite D2; reflexivity|]. split; [exact D4|].
-        rewrite (seg_split L k kp n) by lia.
+        assert (Hall : map (G []) (seq kp (n - kp)) = repeat true (n - kp)).
+        { rewrite <- (seq_length (n - kp) kp) at 2. rewrite <- map_const. apply map_ext. reflexivity. }
+        rewrite Hall. rewrite (seg_split L k kp n) by lia.
         rewrite lfoldl_app by (rewrite repeat_length, seg_length; lia).
         rewrite <- (seg_length L k kp) at 1 by lia. rewrite lfoldl_repeat.
         rewrite <- (seg_length L kp n) at 1 by lia. rewrite lfoldl_repeat.
@@ -1122,9 +1263,11 @@ Section Inverted.
     { intros _. rewrite (off_0 ltb s). lia. }
     { lia. }
     rewrite R1. rewrite (finish_ok s c' _ R2 R3 R4). f_equal.
-    unfold ml_ref. rewrite Hiv. f_equal. f_equal. f_equal.
-    unfold line_events. rewrite (spans_all ltb s). rewrite (off_0 ltb s).
-    cbn [repeat app Nat.sub]. unfold lfoldl. rewrite seg_all. reflexivity.
+    unfold ml_ref, ml_flags. rewrite Hiv. f_equal. f_equal. f_equal.
+    unfold line_events, matched_flags.
+    rewrite (spans_flags ltb s _ (mchain_wf s _ 0 (matches_chain fa Hfa s (S (length s)) 0))).
+    rewrite map_map. rewrite (off_0 ltb s).
+    cbn [repeat app Nat.sub]. unfold lfoldl. rewrite seg_all. cbn [skipn]. rewrite Nat.sub_0_r. reflexivity.
   Qed.
 End Inverted.
 
@@ -1143,6 +1286,10 @@ Section Final.
   Hypothesis Hfa : find_at_ok M.
   (* what SearcherBuilder::build guarantees *)
   Hypothesis Hpta : c_passthru cfg = true -> c_after cfg = 0.
+  (* the inverted search looks for the next match from the start of a line instead of the end of
+     the previous match: it needs a matcher whose answers do not depend on where (before the
+     match) the search starts *)
+  Hypothesis Hmono : c_invert cfg = true -> find_at_mono M.
   Notation K := (fun _ : nat => Continue).
   Notation ltb := (lt_byte (c_lt cfg)).
 
@@ -1150,7 +1297,7 @@ Section Final.
     multi_line_run cfg M K s = RunOk (ml_ref cfg (m_find_at M) s).
   Proof.
     intros s. destruct (c_invert cfg) eqn:Ei.
-    - apply inv_eq_ref; assumption.
+    - apply inv_eq_ref; auto.
     - apply noninv_eq_ref; assumption.
   Qed.
 End Final.
@@ -1173,6 +1320,11 @@ Proof.
   cbn [forallb] in Hne. apply andb_true_iff in Hne as [He Hr]. cbn [rev]. rewrite filter_app, (IH Hr).
   cbn [filter app]. apply negb_true_iff in He. now rewrite He.
 Qed.
+
+(* the blocks of the non-inverted search: the line ranges of the successive matches, merged when
+   they touch or overlap *)
+Definition ml_blocks (cfg : config) (find_at : bytes -> nat -> option (nat * nat)) (s : bytes) : list (nat * nat) :=
+  imerge None (map (iv (lt_byte (c_lt cfg)) s) (ml_matches find_at (S (length s)) s 0)).
 
 Section Visible.
   Variable cfg0 : config.
@@ -1267,40 +1419,45 @@ Section Visible.
     apply covers_iv; lia.
   Qed.
 
+  (* a line lies in a block iff one of the successive matches overlaps it; blocks are separated *)
+  Theorem blocks_flags :
+    (forall t, t < n ->
+       flagf (ml_blocks cfg0 fa s) t =
+       existsb (covers (length s) (off t) (off (S t)) (lt_is_suffix (LTByte ltb) (nth t L [])))
+               (ml_matches fa (S (length s)) s 0)) /\
+    sepb L 0 (ml_blocks cfg0 fa s).
+  Proof.
+    unfold ml_blocks. set (ms := ml_matches fa (S (length s)) s 0).
+    pose proof (matches_chain fa Hfa s (S (length s)) 0) as Hchain. fold ms in Hchain.
+    destruct (flags_merged ltb s ms 0 Hchain) as [_ Hsep]. split; [|exact Hsep].
+    intros t Ht. rewrite (covers_flagf ms t (mchain_wf s ms 0 Hchain) Ht).
+    destruct ms as [|[a b] r]; [reflexivity|].
+    destruct Hchain as (H1 & H2 & H3 & H4). cbn [map imerge].
+    pose proof (mchain_isorted ltb s r a b H2 H4) as Hs. destruct (iv_bounds ltb s a b H2) as [B1 B2].
+    destruct (ivf (a, b)) as [i j]. cbn [fst snd] in *.
+    rewrite (imerge_flagf L t) by auto. reflexivity.
+  Qed.
+
   (* C13, non-inverted: the matched events are exactly one per block of lines overlapped by the
      successive matches; blocks are the maximal runs of such lines; no line is reported twice *)
   Theorem matched_blocks :
-    exists blocks evs,
+    exists evs,
       multi_line_run cfg0 M K s = RunOk evs /\
       (* one matched event per block, in order: the whole lines [off i, off j) *)
-      filter is_em evs = map bev (filter nonemptyb blocks) /\
-      (* a line lies in a block iff one of the successive matches overlaps it *)
-      (forall t, t < n ->
-         flagf blocks t =
-         existsb (covers (length s) (off t) (off (S t)) (lt_is_suffix (LTByte ltb) (nth t L [])))
-                 (ml_matches fa (S (length s)) s 0)) /\
+      filter is_em evs = map bev (filter nonemptyb (ml_blocks cfg0 fa s)) /\
       (* blocks are disjoint, increasing, never adjacent: no line is delivered twice *)
-      sepb L 0 blocks /\ em_sorted 0 (filter is_em evs).
+      em_sorted 0 (filter is_em evs).
   Proof.
-    set (ms := ml_matches fa (S (length s)) s 0) in *.
-    pose proof (matches_chain fa Hfa s (S (length s)) 0) as Hchain. fold ms in Hchain.
-    destruct (flags_merged ltb s ms 0 Hchain) as [_ Hsep].
-    set (blocks := imerge None (map ivf ms)) in *.
-    exists blocks. eexists. split; [apply (noninv_blocks cfg0 M Hbin Hfa Hni Hpta s)|].
-    fold ms. fold blocks.
+    destruct blocks_flags as [_ Hsep]. unfold ml_blocks in *.
+    set (blocks := imerge None (map ivf (ml_matches fa (S (length s)) s 0))) in *.
+    eexists. split; [apply (noninv_blocks cfg0 M Hbin Hfa Hni Hpta s)|].
+    fold blocks.
     assert (Hem : filter is_em (EBegin :: rev (g_out (bfold cfgn L blocks 0 g_init)) ++ [EFinish (length s) None])
                   = map bev (filter nonemptyb blocks)).
     { cbn [filter is_em]. rewrite filter_app. cbn [filter is_em]. rewrite app_nil_r.
       rewrite (bfold_matched blocks 0 0 g_init); auto. }
-    split; [exact Hem|]. split.
-    - intros t Ht. rewrite (covers_flagf ms t (mchain_wf s ms 0 Hchain) Ht).
-      unfold blocks. destruct ms as [|[a b] r]; [reflexivity|].
-      destruct Hchain as (H1 & H2 & H3 & H4). cbn [map imerge].
-      pose proof (mchain_isorted ltb s r a b H2 H4) as Hs. destruct (iv_bounds ltb s a b H2) as [B1 B2].
-      destruct (ivf (a, b)) as [i j]. cbn [fst snd] in *.
-      rewrite (imerge_flagf L t) by auto. reflexivity.
-    - split; [exact Hsep|]. rewrite Hem.
-      pose proof (blocks_sorted blocks 0 ltac:(lia) Hsep) as Hb. now rewrite (off_0 ltb s) in Hb.
+    split; [exact Hem|]. rewrite Hem.
+    pose proof (blocks_sorted blocks 0 ltac:(lia) Hsep) as Hb. now rewrite (off_0 ltb s) in Hb.
   Qed.
 End Visible.
 
@@ -1343,12 +1500,14 @@ Section Dangling.
   Qed.
 End Dangling.
 
+
 (* ------------------------------------------------------------------ the inverted property text *)
 Section InvVisible.
   Variable cfg0 : config.
   Variable M : matcher.
   Hypothesis Hbin : c_binary cfg0 = BNone.
   Hypothesis Hfa : find_at_ok M.
+  Hypothesis Hmono : find_at_mono M.
   Hypothesis Hiv : c_invert cfg0 = true.
   Hypothesis Hpta : c_passthru cfg0 = true -> c_after cfg0 = 0.
   Variable s : bytes.
@@ -1363,10 +1522,6 @@ Section InvVisible.
 
   (* the matched event of line t alone *)
   Definition lev (t : nat) : event := EMatched (off t) (lnum_of cfg0 (1 + t)) (nth t L []).
-
-  (* the successive matches of the inverted search: the next match from the start of the first
-     line not yet decided; the search resumes after the last line of that match *)
-  Definition inv_matches : list (nat * nat) := inv_ms ltb fa s (S (length s)) 0.
 
   Lemma skipn_cons_nth {A} (d : A) : forall (l : list A) k, k < length l -> skipn k l = nth k l d :: skipn (S k) l.
   Proof.
@@ -1411,26 +1566,50 @@ Section InvVisible.
   Qed.
 
   (* C13, inverted: the matched events are, in order, the lines overlapped by none of the successive
-     matches of the inverted search — each such line as its own event, each exactly once *)
+     matches (the same matches as the non-inverted search) — each such line as its own event, each
+     exactly once, and no other line *)
   Theorem inverted_lines :
     exists evs, multi_line_run cfg0 M K s = RunOk evs /\
       filter is_em evs =
       map lev (filter (fun t => negb (existsb (covers (length s) (off t) (off (S t))
-                                                 (lt_is_suffix (LTByte ltb) (nth t L []))) inv_matches))
+                                                 (lt_is_suffix (LTByte ltb) (nth t L [])))
+                                              (ml_matches fa (S (length s)) s 0)))
                       (seq 0 n)).
   Proof.
-    eexists. split; [apply (inv_eq_ref cfg0 M Hbin Hfa Hiv Hpta s)|].
-    unfold ml_ref. rewrite Hiv. cbn [filter is_em]. rewrite filter_app. cbn [filter is_em]. rewrite app_nil_r.
-    unfold line_events. rewrite (spans_all ltb s).
-    pose proof (inv_flags_neg ltb fa Hfa s (S (length s)) 0 ltac:(lia)) as Hflags.
-    rewrite (off_0 ltb s) in Hflags. rewrite Hflags by (intros _; lia). clear Hflags.
-    rewrite Nat.sub_0_r. fold inv_matches.
+    eexists. split; [apply (inv_eq_ref cfg0 M Hbin Hfa Hmono Hiv Hpta s)|].
+    unfold ml_ref, ml_flags. rewrite Hiv. cbn [filter is_em]. rewrite filter_app. cbn [filter is_em]. rewrite app_nil_r.
+    unfold line_events, matched_flags.
+    set (ms := ml_matches fa (S (length s)) s 0).
+    pose proof (mchain_wf s ms 0 (matches_chain fa Hfa s (S (length s)) 0)) as Hwf.
+    rewrite (spans_flags ltb s ms Hwf), map_map.
     rewrite (lfold_combine cfgn _ L 0 g_init).
-    pose proof (lfold_matched (fun t => negb (flagf (map ivf inv_matches) t)) n 0 g_init) as Hm.
+    pose proof (lfold_matched (fun t => negb (flagf (map ivf ms) t)) n 0 g_init) as Hm.
     cbn [skipn] in Hm. rewrite Nat.sub_0_r in Hm. rewrite Hm; auto; try lia.
     cbn [g_out g_init rev filter app]. f_equal. apply filter_ext_in'. intros t Ht. apply in_seq in Ht. f_equal.
-    pose proof (inv_ms_props ltb fa Hfa s (S (length s)) 0 ltac:(lia)) as Hp. fold inv_matches in Hp.
-    symmetry. apply covers_flagf; try assumption; [|lia].
-    eapply Forall_impl; [|exact Hp]. intros m [W _]. exact W.
+    symmetry. apply covers_flagf; try assumption. lia.
+  Qed.
+
+  Lemma lev_inj t t' : t < n -> t' < n -> lev t = lev t' -> t = t'.
+  Proof.
+    intros H1 H2 E. unfold lev in E. injection E as Eo _ _.
+    destruct (Nat.lt_trichotomy t t') as [H|[H|H]]; [|exact H|].
+    - pose proof (off_strict ltb s t t' H ltac:(lia)). lia.
+    - pose proof (off_strict ltb s t' t H ltac:(lia)). lia.
+  Qed.
+
+  (* the inverted search delivers line t iff t is not inside a block of the non-inverted search *)
+  Theorem inverted_is_complement :
+    exists evs, multi_line_run cfg0 M K s = RunOk evs /\
+      filter is_em evs = map lev (filter (fun t => negb (flagf (ml_blocks cfg0 fa s) t)) (seq 0 n)) /\
+      (forall t, t < n -> (In (lev t) (filter is_em evs) <-> flagf (ml_blocks cfg0 fa s) t = false)).
+  Proof.
+    destruct inverted_lines as (evs & Hrun & Hem). exists evs. split; [exact Hrun|].
+    destruct (blocks_flags cfg0 M Hfa Hpta s) as [Hbf _].
+    assert (Hem' : filter is_em evs = map lev (filter (fun t => negb (flagf (ml_blocks cfg0 fa s) t)) (seq 0 n))).
+    { rewrite Hem. f_equal. apply filter_ext_in'. intros t Ht. apply in_seq in Ht. rewrite Hbf by lia. reflexivity. }
+    split; [exact Hem'|]. intros t Ht. rewrite Hem'. split.
+    - intro Hin. apply in_map_iff in Hin as (t' & E & Hin). apply filter_In in Hin as [Hseq Hf].
+      apply in_seq in Hseq. apply lev_inj in E; [|lia|lia]. subst t'. now apply negb_true_iff in Hf.
+    - intro Hf. apply in_map. apply filter_In. split; [apply in_seq; lia|]. now rewrite Hf.
   Qed.
 End InvVisible.
